@@ -99,6 +99,13 @@ func getPKI() *pki {
 		p.client["expired"] = leaf("client", now.Add(-time.Hour), caCert, caKey)
 		p.client["foreign"] = leaf("client", ok, foreignCert, foreignKey)
 		p.client["intercn"] = leaf("leaf-without-the-name", ok, interCert, interKey, interDER)
+		// a verified leaf with another name that drags certificates carrying the rule's name along in its Certificate
+		// message (crypto/tls ignores certificates no chain needs): a stray self-signed one, and a valid leaf of the CA
+		strayKey := newKey()
+		strayT := leafTmpl("client", ok)
+		strayDER := mkCert(strayT, strayT, &strayKey.PublicKey, strayKey)
+		p.client["straycn"] = leaf("somebody-else", ok, caCert, caKey, strayDER)
+		p.client["straygood"] = leaf("somebody-else", ok, caCert, caKey, p.client["good"].Certificate[0])
 		ss := newKey()
 		ssT := leafTmpl("client", ok)
 		ssDER := mkCert(ssT, ssT, &ss.PublicKey, ss)
